@@ -38,6 +38,8 @@ type Run struct {
 	Seed    uint64
 	Trace   []string
 	Tracing bool
+	KeepObs bool // keep one line per observable (cross-process comparison)
+	ObsLog  []string
 
 	Counters map[string]uint64
 	nontriv  []uint64
@@ -81,6 +83,9 @@ func (r *Run) Obs(parts ...any) {
 	h := fnv.New64a()
 	fmt.Fprint(h, parts...)
 	r.obs = verifsim.Mix(r.obs, h.Sum64())
+	if r.KeepObs && len(parts) > 0 {
+		r.ObsLog = append(r.ObsLog, fmt.Sprintf("%v=%016x", parts[0], h.Sum64()))
+	}
 }
 
 func (r *Run) ObsBytes(b []byte) {
